@@ -379,7 +379,7 @@ def run_case(ctx, h: Harness, tgt: Target, spec: Any, count: bool = True) -> Non
             prod = probe.label(t)
             ctx.fail(f"C11:{rel}:{prod}:{reason}", inp, f"{tgt.group}({v!r}) queued {pdesc(t)}: {msg}")
     # (2) a rejection leaves the queue unchanged
-    if exc is not None and queued:
+    if exc is not None and queued and (declared or judged):
         ctx.fail(
             f"C11:rejected-but-queued:{tgt.group}",
             inp,
@@ -979,10 +979,16 @@ def selftest(ctx) -> None:
     assert wire_check(t) is None
     t = Telegram(destination_address=GroupAddress("1/2/3"), payload=GroupValueResponse(DPTBinary(5)))
     assert wire_check(t) is None
-    for bad, reason in ((DPTArray((300,)), "octet-out-of-range"), (DPTArray((-1,)), "octet-out-of-range"), (DPTArray((1.5,)), "non-int-octet"), (DPTArray((0,) * 254), "too-long")):
+    def forged(octets: tuple) -> DPTArray:
+        arr = DPTArray(0)
+        arr.value = octets  # bypass any validation of the constructor
+        return arr
+
+    for octets, reason in (((300,), "octet-out-of-range"), ((-1,), "octet-out-of-range"), ((1.5,), "non-int-octet"), ((0,) * 254, "too-long")):
+        bad = forged(octets)
         r = wire_check(Telegram(destination_address=GroupAddress("1/2/3"), payload=GroupValueWrite(bad)))
         assert r is not None and r[0] == "unserialisable" and r[1].startswith(reason), (bad, r)
-    r = wire_check(Telegram(destination_address=GroupAddress("1/2/3"), payload=GroupValueWrite(DPTArray(()))))
+    r = wire_check(Telegram(destination_address=GroupAddress("1/2/3"), payload=GroupValueWrite(forged(()))))
     assert r is not None and r[0] == "wire-mismatch" and r[1].startswith("empty-array"), r
     assert out_of_range((0, 100, 0.4), 150) and not out_of_range((0, 100, 0.4), 100.3) and not out_of_range((0, 100, 1), True)
     assert not out_of_range((0, 100, 1), float("nan")) and out_of_range((0, 100, 1), float("inf"))
